@@ -10,19 +10,26 @@ from ..core import frac, call_real
 from . import c05
 
 ID = "C01"
-LEAN_MODULE = "CKT.Props.C01"
+LEAN_MODULE = "CKT.Props.C01Supported"
 THEOREMS = ["CKT.C01." + t for t in ["expansion", "blocks_factor", "pair_prod_factor", "choices_map", "mem_choices", "round_trip"]] + \
-           ["CKT.C05.exact_coeff", "CKT.C06.reconstructImpl_eq_spec"]
+           ["CKT.C05.exact_coeff", "CKT.C06.reconstructImpl_eq_spec"] + \
+           ["CKT.C01PTM." + t for t in ["expansion_run", "apply_prodV", "runOps_prodV", "init0_prod", "product_run", "round_trip_ptm",
+                                        "applyL_tensor", "cutSlot_exact", "uncut_eq_slots", "cut_and_reconstruct", "exact_of_exactAt",
+                                        "supported_exact", "cut_rzz_exact", "cut_cx_exact", "cut_move_exact", "cut_kak_exact",
+                                        "SGate.exact", "supported_round_trip"]]
 RULE = ("cut problems on 1-5 qubits, 1-4 partitions, 0-2 cut gates of every family (incl. KAK gates), idle qubits, explicit and automatic labels, "
         "separated and single-circuit call forms, duplicate / identity observables; every subexperiment evaluated exactly by the harness's own "
         "density-matrix simulator; compared: the model's reconstruction (exact rationals) of those distributions with the implementation's, and "
         "(failing-input search) the reconstructed values with the expectation values of the uncut circuit; distinct by payload")
-ASSUMPTIONS = ["the concrete n-qubit channels instantiate the abstract algebra of `round_trip` (tensor-product structure: operations on disjoint qubits "
-               "commute, expectation of a product observable in a product state factorises) — not proved in Lean, covered by the end-to-end search",
-               "bases are exact decompositions (C02: proved for the 21 families; Weyl decomposition external)",
-               "the subexperiment structure and coefficients are tied in C05/C10/C14, grouping in C11, decoding in C06"]
-LEVEL_TEXT = ("abstract round-trip theorem in an arbitrary algebra (multilinear expansion for any number of slots/terms, block factorisation, "
-              "product functional) + bookkeeping theorems of C05/C06; instantiation by concrete quantum channels is validated end to end, not proved (partial)")
+ASSUMPTIONS = ["the vector of Pauli expectation values with operations acting through their transfer matrices (CKT.Sem) is quantum mechanics in "
+               "another basis (standard; the harness simulates density matrices independently on every case)",
+               "bases are exact decompositions: proved in C02 for the 21 families and used here as `supported_exact`; Weyl decomposition external",
+               "the subexperiment structure and coefficients are tied in C05/C10/C14, grouping in C11, decoding in C06; that the `qpd_measure` marker "
+               "with the parity sign applied at reconstruction is the signed projector pair is the C06/C11 half"]
+LEVEL_TEXT = ("round trip proved in the Pauli-expectation semantics for any number of partitions and cuts (`cut_and_reconstruct`: multilinear "
+              "expansion in circuit order, product-vector invariant = tensor structure, factorisation of product observables on |0..0>), with the "
+              "exactness hypothesis discharged by C02 for every supported gate (`supported_round_trip`), + abstract algebra version + bookkeeping "
+              "theorems of C05/C06; the identification of the model's slots with the package's subexperiments is by the C05/C10/C14 ties (partial)")
 _cache = {}
 ORACLE_EVERY = True  # the end-to-end comparison with the uncut circuit is run on every case
 
